@@ -23,7 +23,7 @@ import (
 
 func init() {
 	mc.Register(&mc.Check{ID: "C12", Category: "model_checking",
-		Rule:   "(a) every world of a fault menu (honest worlds over 6 FMSPC values and both issuing CAs, signature / chain / trust faults, collateral faults, revocation faults, expiry faults) verified under all four option combinations with a recording getter; (b) explicit-state BFS over histories of verifications through ONE shared *verify.Options on a virtual clock: alphabet = verify {honest quote A, honest quote A' with another FMSPC, quote under a foreign PKI, structurally empty message} at {L0, L1, L2}, set Options.Now to nil / explicit, advance the clock by 25 days (past collateral and certificate expiries); state = deep hash of the options value + clock position; every transition is compared with the same call on a fresh options value at the same virtual time. Non-trivial: every world x option combination / every transition; distinct by id / history",
+		Rule:   "(a) every world of a fault menu (honest worlds over 6 FMSPC values and both issuing CAs, signature / chain / trust faults, collateral faults, revocation faults, expiry faults) verified under all four option combinations with a recording getter; (b) explicit-state BFS over histories of verifications through ONE shared *verify.Options on a virtual clock: alphabet = verify {honest quote A, honest quote A' with another FMSPC, quote under a foreign PKI, structurally empty message} at {L0, L1, L2, revocation-without-collateral}, set Options.Now to nil / explicit T0 / explicit T0+70d, advance the clock by 25 days (past collateral and certificate expiries), set TrustedRoots to {T} / {look-alike} / nil, change what the collateral service answers (PCK CRL lists / no longer lists the leaf; TCB level Revoked / UpToDate at thorough); state = deep hash of the options value + clock position + service environment + pool identity; every transition is compared with the same call on a fresh options value at the same virtual time. Non-trivial: every world x option combination / every transition; distinct by id / history",
 		Assume: append([]string{"the virtual clock replaces time.Now inside verify.go through a check-time overlay", "state merging by (deep hash of every field of the options value, clock position) is sound: equal keys hold equal option contents at equal times and therefore have equal futures"}, cryptoAssume...),
 		Run:    runC12})
 }
